@@ -325,9 +325,12 @@ def run(ctx: Check) -> int:
     # (a) every request kind x program x warm-up, the request as a whole at every yield point of the tick
     warms = range(0, 7) if thorough else (5,)
     n_atomic = 0
+    few = ("edit", "pause", "cancel", "inject-cmd")       # quick tier: fewer requests for three of the methods
     for prog in PROGRAMS:
         for warm in warms:
             for rq in REQUESTS:
+                if not thorough and prog in ("stop", "watch", "restart") and rq not in few:
+                    continue
                 combo = combo_for(prog, warm, [rq])
                 n_t = add(combo, "tr")["made"].count("T")      # the tick alone first: how many segments it has here
                 n_atomic += 1
@@ -337,7 +340,7 @@ def run(ctx: Check) -> int:
     # (a') the same with a tick whose hardware read fails (set_error_state runs in the tick's unlocked prologue)
     n_fail = 0
     fail_combos = [(p, 3, r) for p in PROGRAMS for r in REQUESTS] if thorough else \
-        [(p, 3, r) for p in ("cmds", "pause", "block") for r in ("edit", "pause", "inject-cmd", "cancel")]
+        [(p, 3, r) for p in ("cmds", "pause") for r in ("edit", "pause", "inject-cmd", "cancel")]
     for (prog, warm, rq) in fail_combos:
         combo = combo_for(prog, warm, [rq], fail=True)
         n_t = add(combo, "tr")["made"].count("T")
@@ -392,7 +395,7 @@ def run(ctx: Check) -> int:
                               "all_interleavings_combos_skipped_for_time": skipped, "distinct_cases": len(cases),
                               "combos": len(combos)}
     ctx.rule = ("case = (method, number of warm-up ticks, one or two requests, schedule); 7 methods (UOD commands, Stop, "
-                "timed Pause, Watch+Wait, Block, Restart, long-running UOD command) x warm-up 5 (thorough 0-6) x 9 requests (live edit, inject "
+                "timed Pause, Watch+Wait, Block, Restart, long-running UOD command) x warm-up 5 (thorough 0-6) x 9 requests (quick: 4 of them for three of the methods) (live edit, inject "
                 "mark / command, Pause, Hold, Stop, user UOD command, cancel, force) with the request as a whole placed "
                 "at each yield point of the tick (between its sub-calls, and inside them: before the hardware read, "
                 "before every UOD exec function of the command phase, before the hardware write, after every sub-tick of "
